@@ -405,14 +405,9 @@ func checkC47(h *hx.H, c c47Case) {
 	seen := map[string]bool{}
 	for _, dt := range texts {
 		where := dt.where
-		h.Label("drawn:" + strings.SplitN(where, "/", 3)[0] + func() string {
-			if p := strings.Split(where, "/"); len(p) > 1 {
-				return "/" + p[len(p)-1]
-			}
-			return ""
-		}())
+		h.Label("drawn:" + c47Where(where))
 		if len(dt.families) == 0 {
-			h.Label("text-without-font-family:" + where)
+			h.Label("text-without-font-family:" + c47Where(where))
 			continue
 		}
 		var cands []*embedded
@@ -423,7 +418,7 @@ func checkC47(h *hx.H, c c47Case) {
 		}
 		if len(cands) == 0 {
 			// the CSS names a family for which no font is embedded: the statement is about embedded subsets
-			h.Label("family-not-embedded:" + where)
+			h.Label("family-not-embedded:" + c47Where(where))
 			continue
 		}
 		for _, r := range dt.text {
@@ -469,7 +464,7 @@ func checkC47(h *hx.H, c c47Case) {
 				kind = "glyph-does-not-load"
 			}
 			var sig string
-			switch origin := c47Origin(c.Text, m.r); origin {
+			switch origin := c47Origin(c.Text, m.r, m.where); origin {
 			case "generated-nbsp", "generated-from-html-entity":
 				// one construct each, whatever face it lands in
 				sig = kind + ":" + origin + ":" + strings.SplitN(c47Where(m.where), ".", 2)[0]
@@ -513,13 +508,13 @@ func checkC47(h *hx.H, c c47Case) {
 // c47Origin says where a drawn rune comes from: literally from the source, or produced on the
 // way to the SVG (code blocks draw blanks as U+00A0, markdown decodes HTML entities, text
 // transforms change letters).
-func c47Origin(src string, r rune) string {
+func c47Origin(src string, r rune, where string) string {
 	switch {
 	case strings.ContainsRune(src, r):
 		return "in-source"
-	case r == 0xA0 && !strings.Contains(src, "&nbsp;"):
+	case r == 0xA0 && (strings.HasPrefix(where, "text") || !strings.Contains(src, "&nbsp;")):
 		return "generated-nbsp"
-	case strings.Contains(src, "&") && strings.Contains(src, ";") && (strings.Contains(src, "|md") || strings.Contains(src, "tooltip")):
+	case strings.HasPrefix(where, "md") && strings.Contains(src, "&") && strings.Contains(src, ";"):
 		return "generated-from-html-entity"
 	default:
 		return "generated"
